@@ -1,0 +1,45 @@
+//go:build verif
+
+package command
+
+// Contracts for govc (comment-only; compiled only with -tags verif). Property C29.
+//
+//@ spec import lib/net
+//
+// gzip helpers: allocate only (trusted; the codec inverse gunzip(gzip(x)) == x is the listed
+// assumption about compress/gzip).
+//@ func gzCompress
+//@   noheap
+//@ func gzUncompress
+//@   noheap
+//
+// Marshal: compression is TRIED iff the request has at least BatchThreshold statements or a
+// statement of at least SizeThreshold bytes; the compressed form is USED iff it was tried and is
+// smaller than the plain encoding or compression is forced; otherwise the plain protobuf bytes
+// are returned unchanged. The flag returned says which.
+//@ func (*RequestMarshaler) Marshal
+//@   requires [recv] m != nil
+//@   ghost var tried bool = false
+//@   ghost var pbB slice = nilslice
+//@   ghost var gzB slice = nilslice
+//@   ghost update @pb.Marshal: tried = compress
+//@   ghost update @pb.Marshal: pbB = result0
+//@   ghost update @gzCompress: gzB = result0
+//@   loop 1 invariant [none-big-so-far] !compress && (forall j int :: (0 <= j && j < _i) ==> len(stmts[j].Sql) < m.SizeThreshold)
+//@   ensures [tried-iff] result2 == nil ==> (tried == (len(stmts) >= m.BatchThreshold || (exists j int :: 0 <= j && j < len(stmts) && len(stmts[j].Sql) >= m.SizeThreshold)))
+//@   ensures [used-only-if-smaller-or-forced] (result2 == nil && result1) ==> (tried && (len(gzB) < len(pbB) || m.ForceCompression) && result0 == gzB)
+//@   ensures [used-if-smaller-or-forced] (result2 == nil && tried && (len(gzB) < len(pbB) || m.ForceCompression)) ==> result1
+//@   ensures [plain-verbatim] (result2 == nil && !result1) ==> result0 == pbB
+//
+// UnmarshalSubCommand: the sub-command bytes are gunzipped iff the command says Compressed, and
+// exactly those bytes are decoded.
+//@ func UnmarshalSubCommand
+//@   requires [cmd] c != nil
+//@   ghost var unz bool = false
+//@   ghost var unzB slice = nilslice
+//@   ghost var sub0 slice = c.SubCommand
+//@   ghost var comp0 bool = c.Compressed
+//@   assert @gzUncompress: [only-if-flag] comp0 && arg0 == sub0
+//@   ghost update @gzUncompress: unz = true
+//@   ghost update @gzUncompress: unzB = result0
+//@   assert @pb.Unmarshal: [decodes-right-bytes] arg1 == m && (comp0 ==> (unz && arg0 == unzB)) && (!comp0 ==> (!unz && arg0 == sub0))
